@@ -104,7 +104,7 @@ def r8_1(cx):
              'the request can never exceed what is buffered, "no progress" is then mistaken for Eof (every byte becomes a 1-byte Data chunk and no Sentinel is reported)'
              % (show(cnt), lb, K - 1))
     att = rd.arg(3).strip()
-    cx.check(att.kind == 'const' and (att.info.get('int') == 2**64 - 1 or 'MAX' in (att.info.get('namedp') or '')), 'unbounded-attempts', fn, rd.loc(),
+    cx.check(att.kind == 'const' and att.info.get('int') == 2**64 - 1, 'unbounded-attempts', fn, rd.loc(),
              'read_n may retry until count bytes or EOF (attempts = usize::MAX)', fail_detail='read_n attempts = %s: short reads can end the refill early' % show(att))
     src = rd.arg(1).strip()
     ok_src = is_call(src, 'Read::chain') and src.args[0].has_call(ASLICE + '::take') and any(a.strip().kind == 'param' for a in src.args[1].walk())
